@@ -54,7 +54,7 @@ def find_struct(gr, key):
 
 
 def run(res, prop, propfile, corpus, *, entry="VT", use_ctx=False, spec=True, allocs=False,
-        require_generated=True, classify=None, extra=None, tag=None):
+        require_generated=True, classify=None, extra=None, tag=None, pre_build=None):
     """Runs the pipeline and the standard classification. Returns (GenRun, coq results) for extra checks."""
     res.assumptions = TRUSTED_GEN
     res.coverage["trusted_base"] = TRUSTED_GEN
@@ -76,10 +76,13 @@ def run(res, prop, propfile, corpus, *, entry="VT", use_ctx=False, spec=True, al
                        "scenarios": [sc["id"] for sc in corpus["scenarios"]][:50]}, found_input=True)
         return gr, None
     meta = gr.translate()
+    if pre_build:
+        pre_build(gr)
     ok, errs = gr.go_vet_build()
     bad_pkgs = set(errs)
     if not ok and not errs:
         bad_pkgs = {m["pkg"] for m in meta}
+    gr.bad_pkgs = bad_pkgs
     obs = gr.drive(allocs=allocs, skip_pkgs=bad_pkgs)
     if obs is None:
         raise RuntimeError("driver failed: " + getattr(gr, "drv_error", ""))
